@@ -26,8 +26,11 @@ CONSTANTS Objects,      \* pool of distinct object tokens (1..n)
           DictDeclared, \* TRUE: objects declared as a dictionary
           Multi         \* TRUE: ListSelector (value is a sequence of objects)
 
-VARIABLES objs, names, value, nops, hist
-vars == <<objs, names, value, nops, hist>>
+VARIABLES objs, names, value, nops, hist,
+          hsnap    \* a handle `h = p.objects` kept by the user: its own list content (NoH: none kept).
+                   \* Every other action fetches a fresh handle; a kept one goes stale when they mutate.
+vars == <<objs, names, value, nops, hist, hsnap>>
+NoH == <<0>>
 
 Range(s) == {s[i] : i \in 1..Len(s)}
 KeysOf(nm) == {nm[i][1] : i \in 1..Len(nm)}
@@ -47,12 +50,12 @@ Init == \E n \in 1..2 :
           LET o == [i \in 1..n |-> i]
               nm == IF DictDeclared THEN [i \in 1..n |-> <<i, o[i]>>] ELSE <<>>
               v == IF Multi THEN <<1>> ELSE 1 IN
-          /\ objs = o /\ names = nm /\ nops = 0 /\ value = v
+          /\ objs = o /\ names = nm /\ nops = 0 /\ value = v /\ hsnap = NoH
           /\ hist = IF RecordHist THEN <<[act |-> [name |-> "init"], ret |-> 0, notes |-> 0,
                                           obs |-> [objs |-> o, names |-> nm, value |-> v], kf |-> {}]>> ELSE <<>>
 
 Step == nops < MaxOps /\ nops' = nops + 1
-Keep == UNCHANGED value
+Keep == UNCHANGED <<value, hsnap>>
 
 \* ---- list-style mutators ---------------------------------------------------------
 Append_(x) == /\ Step /\ ~DictDeclared /\ x \notin Range(objs) /\ Len(objs) < MaxLen
@@ -67,6 +70,25 @@ Extend_(xs) == /\ Step /\ ~DictDeclared /\ NoDup(xs) /\ Range(xs) \cap Range(obj
 SetIndex(i, x) == /\ Step /\ ~DictDeclared /\ i \in 1..Len(objs) /\ x \notin Range(objs)
                   /\ objs' = [objs EXCEPT ![i] = x] /\ UNCHANGED names /\ Keep
                   /\ Rec("setindex", [i |-> i - 1, x |-> x], 0, 1, objs', names, value)
+\* objects[lo:hi] = xs (0-based, half open): the slice is replaced, the list may grow or shrink
+SetSlice(lo, hi, xs) ==
+  /\ Step /\ ~DictDeclared /\ lo \in 0..Len(objs) /\ hi \in lo..Len(objs)
+  /\ LET r == SubSeq(objs, 1, lo) \o xs \o SubSeq(objs, hi + 1, Len(objs)) IN
+     /\ NoDup(r) /\ Len(r) <= MaxLen
+     /\ objs' = r /\ UNCHANGED names /\ Keep
+     /\ Rec("setslice", [lo |-> lo, hi |-> hi, xs |-> xs], 0, IF r = objs THEN 2 ELSE 1, r, names, value)
+\* ---- a handle kept across other mutations -------------------------------------------
+Grab == /\ Step /\ hsnap' = objs /\ UNCHANGED <<objs, names, value>>
+        /\ Rec("grab", <<>>, 0, 0, objs, names, value)
+\* h.pop(i) through the kept handle: removes the i-th of the *current* objects and returns it
+PopVia(i) == /\ Step /\ hsnap # NoH /\ i \in 1..Len(objs) /\ i \in 1..Len(hsnap)
+             /\ objs' = RemoveAt(objs, i)
+             /\ names' = (IF names = <<>> THEN <<>> ELSE RemoveAt(names, i))
+             /\ hsnap' = RemoveAt(hsnap, i) /\ UNCHANGED value
+             /\ Rec("popvia", [i |-> i - 1], objs[i], 1, objs', names', value)
+AppendVia(x) == /\ Step /\ hsnap # NoH /\ ~DictDeclared /\ x \notin Range(objs) /\ Len(objs) < MaxLen
+                /\ objs' = Append(objs, x) /\ hsnap' = Append(hsnap, x) /\ UNCHANGED <<names, value>>
+                /\ Rec("appendvia", [x |-> x], 0, 1, objs', names, value)
 \* ---- mutators valid for both styles ------------------------------------------------
 PopIndex(i) == /\ Step /\ i \in 1..Len(objs)
                /\ objs' = RemoveAt(objs, i)
@@ -119,12 +141,12 @@ Replace_(xs) == /\ Step /\ NoDup(xs) /\ Len(xs) <= MaxLen
 SetValue(v) == /\ Step /\ ~Multi /\ objs # <<>>
                /\ LET ok == v \in Range(objs) IN
                   /\ value' = IF ok THEN v ELSE value
-                  /\ UNCHANGED <<objs, names>>
+                  /\ UNCHANGED <<objs, names, hsnap>>
                   /\ Rec("setvalue", [v |-> v], IF ok THEN 1 ELSE 0, 0, objs, names, value')
 SetValues(vs) == /\ Step /\ Multi /\ objs # <<>>
                  /\ LET ok == Range(vs) \subseteq Range(objs) IN
                     /\ value' = IF ok THEN vs ELSE value
-                    /\ UNCHANGED <<objs, names>>
+                    /\ UNCHANGED <<objs, names, hsnap>>
                     /\ Rec("setvalues", [vs |-> vs], IF ok THEN 1 ELSE 0, 0, objs, names, value')
 
 Seqs(S, n) == UNION {[1..m -> S] : m \in 0..n}
@@ -133,7 +155,9 @@ Pairs == {<<k, x>> : k \in Keys, x \in Objects}
 Next == \/ \E x \in Objects : Append_(x) \/ Remove_(x) \/ SetValue(x)
         \/ \E i \in 0..MaxLen, x \in Objects : Insert_(i, x) \/ SetIndex(i, x)
         \/ \E xs \in Seqs(Objects, 2) : Extend_(xs) \/ Replace_(xs) \/ SetValues(xs)
-        \/ \E i \in 1..MaxLen : PopIndex(i)
+        \/ \E i \in 1..MaxLen : PopIndex(i) \/ PopVia(i)
+        \/ Grab \/ \E x \in Objects : AppendVia(x)
+        \/ \E lo \in 0..MaxLen, hi \in 0..MaxLen, xs \in Seqs(Objects, 2) : SetSlice(lo, hi, xs)
         \/ PopLast \/ Clear_
         \/ \E k \in Keys, x \in Objects : SetKey(k, x)
         \/ \E prs \in Seqs(Pairs, 2), nkw \in 0..1 : (nkw <= Len(prs) /\ Update_(prs, nkw))
